@@ -172,3 +172,12 @@ def laClauseCheck (lits : List (Term × Bool)) (cert : Cert) : Bool :=
   refute c d cert
 
 end Osmt.LA
+
+namespace Osmt.LA
+/-- C26: a conflict of asserted bounds `lits` (atom, negated?) with the solver's own coefficients `ws`: one
+strictly positive weight per bound, all unknowns cancel, the constant is contradictory. -/
+def conflictCheck (lits : List (Term × Bool)) (ws : List Rat) : Bool :=
+  let (c, d) := collect (lits.map (fun l => itemOf l.1 l.2))
+  d.isEmpty && decide (c.length = ws.length) && decide (lits.length = ws.length) &&
+    ws.all (fun w => decide (0 < w)) && farkasCheck (c.zip ws)
+end Osmt.LA
